@@ -36,6 +36,16 @@
 //	             asked about every pool IP in every textual form (/ip4, /ip6, /ip6/::ffff:…, /ip6zone, quic-v1,
 //	             webtransport, webrtc-direct, ws, bare IP) and about forms without IP component.
 //
+// Harness hygiene (audit): the calls made only to observe — ListBlocked*, Swarm.ConnsToPeer, simnet's Conns/Dials/
+// Stats, simdisk.Keys, the Intercept* sweep of hooks-direct — read under read locks and write nothing. There is no
+// warm-up: the first step may be a Block, UDP faults are on from the first datagram, every restart gives a node
+// whose first contacts happen under the restored rules. Two set-up actions used to reset swarm state before every
+// round and are drawn now: the dial back-off is left in place after 1/4 of the rounds/restarts (no liveness is
+// expected for that pair in the next round) and G's / the remote's peerstore record of the other side is kept
+// instead of replaced in 1/3 of the dials (addresses learned before the last rule change, incl. the swarm's own
+// resolved TempAddrTTL entries, are met by the next dial). Rule changes happen at quiescent instants (except
+// mid-punch): Block*/Unblock* never race with an in-flight handshake in ordinary rounds — a stated assumption.
+//
 // Reference model: the ACKNOWLEDGED rule set. A call that returned nil sets its rule to blocked/unblocked; a
 // call that returned an error or was cut by the process stop leaves the rule "unknown" (either way is legal)
 // unless it already was in the target state. Oracles use definite states only.
@@ -641,6 +651,9 @@ type host struct {
 	qforms []string // QUIC address forms (QUIC stratum)
 	node   *simhost.Node
 	hadDef bool // some rule definitely matched this host in an earlier round
+	// dial back-off entries between G and this host may be left from earlier steps (the harness did not clear
+	// them): the next dial may legitimately fail without a dial attempt, so no liveness is expected
+	mayBackoff bool
 }
 
 type connEvent struct {
@@ -1048,8 +1061,18 @@ func (fs *fullStack) restartG(afterStop bool) bool {
 	if !fs.startG() {
 		return false
 	}
+	// the remotes' dial back-off towards G survives G's restart in reality; mostly cleared so that the next round can
+	// expect liveness, sometimes (drawn) left in place
+	keep := fs.g.Chance(1, 4)
 	for _, h := range []*host{fs.P, fs.Q} {
-		h.node.Swarm.Backoff().Clear(fs.G.ID)
+		if keep {
+			h.mayBackoff = true
+		} else {
+			h.node.Swarm.Backoff().Clear(fs.G.ID)
+		}
+	}
+	if keep {
+		fs.probe("backoff-kept")
 	}
 	return true
 }
@@ -1208,7 +1231,19 @@ func (fs *fullStack) round() {
 				names = append(names, noCerthash(d)+"(decoy)")
 				fs.probe("dial-with-decoy")
 			}
-			fs.G.PS.ClearAddrs(h.node.ID)
+			// Mostly G's record of the peer is replaced by this round's addresses; sometimes (drawn) what earlier
+			// rounds and the swarm itself (resolved addresses, TempAddrTTL) left in the peerstore stays, so that a
+			// dial meets addresses learned before the last rule change.
+			if fs.g.Chance(1, 3) {
+				names = append(names, "+ whatever the peerstore still holds")
+				fs.probe("peerstore-addrs-kept")
+				if fs.quic {
+					udpKinds[normIP(net.ParseIP(h.ip))] |= kQUIC | kWT
+					udpKinds[normIP(net.ParseIP(h.decoy))] |= kQUIC | kWT
+				}
+			} else {
+				fs.G.PS.ClearAddrs(h.node.ID)
+			}
 			fs.G.PS.AddAddrs(h.node.ID, addrs, peerstore.PermanentAddrTTL)
 			tr := fs.g.Int(2)
 			fs.probe("G-dials-by-" + triggerName[tr])
@@ -1233,7 +1268,12 @@ func (fs *fullStack) round() {
 				if kinds&kTCP != 0 {
 					ga = append(ga, fs.G.Addr)
 				}
-				h.node.PS.ClearAddrs(fs.G.ID)
+				if fs.g.Chance(1, 3) {
+					via += "+kept"
+					fs.probe("peerstore-addrs-kept")
+				} else {
+					h.node.PS.ClearAddrs(fs.G.ID)
+				}
 				h.node.PS.AddAddrs(fs.G.ID, ga, peerstore.PermanentAddrTTL)
 			}
 			tasks = append(tasks, &dialTask{label: h.name + "->G", from: h.name, to: "G", trigger: tr})
@@ -1260,6 +1300,7 @@ func (fs *fullStack) round() {
 	dials0 := len(fs.n.Dials())
 	fs.refusedNonMatching = false
 	faulty := fs.faultsOn
+	backoffAtStart := map[*host]bool{fs.P: fs.P.mayBackoff, fs.Q: fs.Q.mayBackoff}
 	pv := map[*host]verdict{}
 	iv := map[*host]verdict{}
 	for _, h := range hosts {
@@ -1447,7 +1488,10 @@ func (fs *fullStack) round() {
 				fs.probe("survivor-conn-while-blocked")
 			}
 		}
-		if !pv[h].poss && !iv[h].poss && expectLive[h] {
+		if backoffAtStart[h] && !pv[h].poss && !iv[h].poss && expectLive[h] && nc == 0 {
+			fs.probe("not-connected-with-backoff-kept")
+		}
+		if !pv[h].poss && !iv[h].poss && expectLive[h] && !backoffAtStart[h] {
 			if fs.ackedBlock > 0 {
 				fs.bump()
 			}
@@ -1481,9 +1525,21 @@ func (fs *fullStack) round() {
 		fs.probe("conns-kept-across-steps")
 	}
 	fs.settle(time.Second)
+	// Dial back-off (a refused or failed dial puts the address into back-off for >= 5 s): mostly cleared, so that
+	// the next round's dials are attempted and liveness can be expected; sometimes (drawn) left as the swarm has it,
+	// so that a dial after a rule change meets the back-off state the refusal created.
+	keepBackoff := fs.g.Chance(1, 4)
 	for _, h := range hosts {
-		h.node.Swarm.Backoff().Clear(fs.G.ID)
-		fs.G.Swarm.Backoff().Clear(h.node.ID)
+		if keepBackoff {
+			h.mayBackoff = true
+		} else {
+			h.node.Swarm.Backoff().Clear(fs.G.ID)
+			fs.G.Swarm.Backoff().Clear(h.node.ID)
+			h.mayBackoff = false
+		}
+	}
+	if keepBackoff {
+		fs.probe("backoff-kept")
 	}
 }
 
@@ -1720,6 +1776,7 @@ func (fs *fullStack) punchRound() {
 	fs.settle(time.Second)
 	fs.G.Swarm.Backoff().Clear(h.node.ID)
 	h.node.Swarm.Backoff().Clear(fs.G.ID)
+	h.mayBackoff = false
 }
 
 func (fs *fullStack) byName(n string) *host {
@@ -1885,6 +1942,7 @@ func (fs *fullStack) runFullStack(mode simnet.LinkMode, tapeS *simrt.Stream) {
 			for _, h := range []*host{fs.P, fs.Q} {
 				h.node.Swarm.Backoff().Clear(fs.G.ID)
 				fs.G.Swarm.Backoff().Clear(h.node.ID)
+				h.mayBackoff = false
 			}
 			fs.probe("udp-faults-stopped-before-final-round")
 		}
